@@ -73,7 +73,11 @@ PROPS = {
                 rule="the real pigeon binary (fresh process, 10 s timeout) on valid generated grammars, token/byte mutations, splices, truncations and raw bytes x random flag sets; classified: exit status in the documented set, no panic trace, no hang, exit 0 => output parses as Go, exit 0 never for a text the front-end rejects, non-zero => diagnostic on stderr",
                 explanation="totality of the tool is decided by execution on generated and mutated inputs; Lean covers the exit-status decision logic of main()"),
     "C14": h1prop("PigeonVerif.Properties.C14", P(["val", "pos", "noerr", "errs", "trace_blks"]),
-                  [("throw", 6000, 200000)]),
+                  [("throw", 6000, 200000)],
+                  # handlers must also survive -optimize-grammar: the real ast.Optimize on grammars that all carry the
+                  # targeted handler families (an outer recovery expression throwing a label only an inner, dynamically
+                  # enclosing operator lists), original vs optimized under the reference interpreter, directed inputs
+                  tools=[("pvopt", 1500, 40000, ["-handler-shapes", "-lift", "optmerge-inverted,optshare,optthrow"])]),
     "C15": h1prop("PigeonVerif.Properties.C15", P(["val", "pos", "errs", "mf"]),
                   [("core", 6000, 200000), ("utf8", 2000, 50000), ("blocks", 1000, 20000)],
                   twins=twins_c15, twin_rel=rel_c15, variants=[v for v in core.ALL_VARIANTS if v.endswith("b1")],
